@@ -12,6 +12,7 @@ from __future__ import annotations
 import itertools
 
 import core
+import designlib
 import searchlib
 
 PROPERTY = "C05"
@@ -143,6 +144,7 @@ def run(ctx: core.Ctx):
     if first_diff is not None:
         ctx.broken.append("search-model-correspondence")
         ctx.extra["first_disagreement"] = first_diff
+    real_run_predicates(ctx)
     ctx.programs = 4
     ctx.extra["exhaustive_part"] = f"{n_exh} searches: all thresholds for lengths 1..64 + all sign patterns up to length {8 if quick else 10}"
     if ctx.tier == "thorough":
@@ -176,3 +178,46 @@ def check_b1d_predicate(ctx, exhaustive_family, counts, elo, ehi, cap, cont, mi,
             ctx.finding("b1d-first-feasible", f"monotone excess with threshold {kth}: returned {out_r}, trace {tr_r}",
                         {"counts": counts, "elo": elo, "ehi": ehi, "cap": cap, "cont": cont, "max_iter": mi, "real": out_r, "trace": tr_r})
         ctx.count("predicate:first-feasible-checked")
+
+
+def real_run_predicates(ctx):
+    """Recorded real design runs (shared with C01/C02/C12): the evaluation log must be faithful (a logged
+    excess equals a fresh search-stage evaluation of that field at that height), the predecessor of the
+    selected candidate must have been evaluated and fail at maximum height, an unclamped height is a
+    root of the sizing objective."""
+    cfgs, recs, cached = designlib.get_runs(ctx)
+    for cfg, r in zip(cfgs, recs):
+        if r["outcome"] == "harness-error":
+            ctx.infra(f"run {r['id']}: {r.get('message')}")
+            continue
+        g = cfg["geom"][0]
+        rep = {"cfg": r["cfg"], "profile": cfg["profile"], "scale": cfg["scale"], "outcome": r["outcome"], "nbh": r.get("nbh"), "H": r.get("H"), "sel_key": r.get("sel_key")}
+        for chk in r.get("eval_checks", []):
+            ctx.case(("real-eval", r["id"], chk["where"], chk["list"], chk["idx"], chk["h"]), True)
+            ctx.count("real:eval-rechecked")
+            tol = 1e-6 * max(1.0, abs(chk["fresh"]))
+            if abs(chk["logged"] - chk["fresh"]) > tol:
+                ctx.finding("search-log-not-faithful", f"{g}: the search logged excess {chk['logged']:.6f} for field {chk['idx']} ({chk['nbh']} boreholes) at H={chk['h']}, a fresh evaluation of that field at that height gives {chk['fresh']:.6f}",
+                            {**rep, "evaluation": chk})
+        if r["outcome"] != "design" or designlib.is_escape(r):
+            continue
+        ctx.case(("real-design", r["id"], r["loads_sha"]), True)
+        root = r["roots"][-1] if r.get("roots") else None
+        if root and root["f_lower"] * root["f_upper"] < 0:
+            ea = designlib.excess_of(cfg, *r["oracle_a"])
+            ctx.count("real:bracketed-root")
+            if abs(ea) > 1e-3:
+                ctx.finding("height-not-a-root", f"{g}: bracketed sizing returned H={r['H']:.4f} but the excess there is {ea:.4g} K (fresh re-simulation)", rep)
+        if g in ("NEARSQUARE", "RECTANGLE", "BIRECTANGLE") and r.get("sel_key"):
+            last = designlib.final_search_evals(r)
+            first3 = last[:3]
+            if len(first3) == 3 and designlib.classify_pre(first3[0]["excess"], first3[1]["excess"], first3[2]["excess"]) == "bisect":
+                pred = [e for e in last if e["idx"] == r["sel_key"] - 1 and e["h"] == cfg["max_h"]]
+                ctx.count("real:predecessor-checked")
+                if not pred:
+                    ctx.finding("predecessor-not-evaluated", f"{g}: selected candidate {r['sel_key']} but candidate {r['sel_key'] - 1} was never evaluated at max height", rep)
+                elif not pred[-1]["excess"] > 0:
+                    # only a violation under a monotone excess; report when every evaluated smaller field fails
+                    smaller_ok = [e for e in last if e["idx"] < r["sel_key"] - 1 and e["h"] == cfg["max_h"] and e["excess"] < 0]
+                    if not smaller_ok:
+                        ctx.finding("predecessor-feasible", f"{g}: candidate {r['sel_key'] - 1} meets the limits at max height (excess {pred[-1]['excess']:.4g}) yet candidate {r['sel_key']} was returned", rep)
